@@ -212,6 +212,18 @@ def run(ctx):
         gc.collect()
     core.history_check(ctx, "import numpy as np\nfrom koala import example_graphs as eg, voronization as vz, graph_utils as gu, quasicrystals as qc, phase_diagrams as pdg, hamiltonian as ham\nfrom koala.flux_finder import flux_finder as ff\n\ndef _canon(l):\n    parts = [l.vertices.positions.ravel(), l.edges.indices.ravel().astype(float), l.edges.crossing.ravel().astype(float)]\n    return np.concatenate(parts)\ndef _plaq(l):\n    out = []\n    for p in l.plaquettes:\n        out += [float(len(p.edges))] + [float(x) for x in p.edges] + [float(x) for x in p.directions] + [float(x) for x in p.vertices] + [float(x) for x in p.center]\n    return np.array(out)\n_pts = np.random.default_rng(123).uniform(size=(14, 2))\n", ["ff.fluxes_from_ujk(vz.generate_lattice(_pts), 1 - 2 * (np.arange(42) % 3 == 0))", "ff.fluxes_from_ujk(eg.honeycomb_lattice(3), np.ones(54, dtype=int), real=False)"],
                        label="flux call")
+    # ---- the order of the first queries: on a twin the complex variant is asked for first, then the real one; both are what they are on the original
+    for name, fam, l in cases[:: max(1, len(cases) // (15 if ctx.tier == "quick" else 100))]:
+        u = (1 - 2 * rng.integers(0, 2, size=l.n_edges)).astype(np.int8)
+        try:
+            r0 = ff.fluxes_from_ujk(l, u); c0 = ff.fluxes_from_ujk(l, u, real=False)
+            twin = zoo.rebuild(l)
+            c1 = ff.fluxes_from_ujk(twin, u, real=False); r1 = ff.fluxes_from_ujk(twin, u); c2 = ff.fluxes_from_ujk(twin, u, real=False)
+            if not (np.array_equal(r0, r1) and np.allclose(c0, c1, atol=1e-12) and np.allclose(c0, c2, atol=1e-12) and not np.iscomplexobj(r1)):
+                ctx.impl_violation(f"{name}: the real / complex fluxes of a lattice on which the complex variant was queried first differ from those of a twin queried real first", dict(case=name, lattice=zoo.lat_to_json(l), u=u.tolist()))
+        except Exception as ex:
+            ctx.impl_violation(f"{name}: flux queries on a twin raised {type(ex).__name__}: {ex}", dict(case=name, lattice=zoo.lat_to_json(l), u=u.tolist()))
+        ctx.case((name, "query order"), nontrivial=True)
     # ---- other operations on a freshly built lattice *before* its plaquettes are first computed: the fluxes are those of an untouched twin
     from koala import graph_utils as gu
     from koala.lattice import Lattice, cut_boundaries
